@@ -119,3 +119,14 @@ MUTANTS += [
     {"name": "c14-redis-reject-keeps-processing-mark", "checks": ["C14", "C01"],
      "edits": [("repid/connections/redis/message_broker.py", "                    in_front=True,\n                )\n            self.__unmark_processing(key, pipe)\n            await pipe.execute()\n\n    async def requeue", "                    in_front=True,\n                )\n            await pipe.execute()\n\n    async def requeue")]},
 ]
+RB = "repid/connections/redis/message_broker.py"
+MUTANTS += [
+    {"name": "c15-redis-window-newest-first", "checks": ["C15"],
+     "edits": [(RC, "                names.reverse()  # the oldest message is at the very end of the queue\n", "")]},
+    {"name": "c15-redis-new-messages-at-tail", "checks": ["C15"],
+     "edits": [(RB, "            if not in_front:\n                pipe.lpush(qnc(key.queue, key.priority), mnc(key, short=True))", "            if not in_front:\n                pipe.rpush(qnc(key.queue, key.priority), mnc(key, short=True))")]},
+    {"name": "c15-mem-lifo", "checks": ["C15"],
+     "edits": [("repid/connections/in_memory/utils.py", "    simple: asyncio.Queue[Message] = field(default_factory=asyncio.Queue)", "    simple: asyncio.Queue[Message] = field(default_factory=asyncio.LifoQueue)")]},
+    {"name": "c15-redis-window-offset-stuck", "checks": ["C15"],
+     "edits": [(RC, "                offset -= self.PREFETCH_AMOUNT  # reversed offset", "                offset -= 0  # reversed offset")]},
+]
